@@ -121,6 +121,7 @@ type accessCb struct {
 	n     int
 	retCh chan int
 	ctx   context.Context
+	done  bool
 }
 
 type consumer struct {
@@ -268,7 +269,6 @@ func exec(consumers bool) func(script []string, opt comp.Options) comp.Result {
 				log.Ret(id, "panic")
 			}
 		}
-		_ = cons
 		for _, step := range script {
 			f := strings.Fields(step)
 			if len(f) == 0 {
@@ -412,6 +412,7 @@ func exec(consumers bool) func(script []string, opt comp.Options) comp.Result {
 					}
 				}
 				log.Add("probe %d %d", pv, pe)
+				w.probeAccess(cons)
 				log.Quiesce()
 			default:
 				if consumers {
